@@ -23,6 +23,8 @@ Start == phase = "build" /\ codes # <<>> /\ phase' = "run" /\ orig' = buf /\ UNC
 
 RECURSIVE Skip(_)
 Skip(b) == IF b # <<>> /\ IsSkip(Head(b)) THEN Skip(Tail(b)) ELSE b
+\* the language tokens among the tokens that Skip passes over (pushed back when an optional argument is absent, fix 6fcf81f)
+Lngs(bf) == SelectSeq(SubSeq(bf, 1, Len(bf) - Len(Skip(bf))), LAMBDA t : t.k = "lng")
 Void(p) == [k |-> "void", p |-> p]
 Mark(p) == [k |-> "mark", p |-> p]
 \* the loop of arg_buffer after the opening token: [found, arg, rest]
@@ -53,12 +55,12 @@ Step == /\ phase = "run" /\ n <= Len(codes)
            /\ pos' = p
            /\ IF c = "*" THEN
                  IF has /\ tok.k = "*" THEN args' = Append(args, <<tok>>) /\ buf' = Tail(b) /\ delims' = Append(delims, FALSE) /\ recovered' = recovered
-                 ELSE args' = Append(args, <<>>) /\ buf' = b /\ delims' = Append(delims, FALSE) /\ recovered' = recovered
+                 ELSE args' = Append(args, <<>>) /\ buf' = Lngs(buf) \o b /\ delims' = Append(delims, FALSE) /\ recovered' = recovered
               ELSE IF c = "O" THEN
                  IF has /\ tok.k = "[" THEN
                     LET r == ArgBuffer(b, p, "]") IN
                     args' = Append(args, r.arg) /\ buf' = r.rest /\ delims' = Append(delims, TRUE) /\ recovered' = recovered + (IF r.rec THEN 1 ELSE 0)
-                 ELSE args' = Append(args, <<>>) /\ buf' = b /\ delims' = Append(delims, FALSE) /\ recovered' = recovered
+                 ELSE args' = Append(args, <<>>) /\ buf' = Lngs(buf) \o b /\ delims' = Append(delims, FALSE) /\ recovered' = recovered
               ELSE \* "A"
                  IF has /\ tok.k = "}" THEN args' = Append(args, <<Void(p)>>) /\ buf' = b /\ delims' = Append(delims, FALSE) /\ recovered' = recovered
                  ELSE LET r == ArgBuffer(b, p, "}") IN
@@ -83,6 +85,8 @@ NothingLost == phase \in {"run", "done"} => \A x \in 1..Len(orig) :
 TextKept == phase \in {"run", "done"} => \A x \in 1..Len(orig) : orig[x].k \in {"a", "par"} => InArgs(orig[x]) \/ InBuf(orig[x])
 \* an unclosed group comes with exactly one error mark in the input and one for the caller
 RecoveryMarks == Cardinality({x \in 1..Len(buf) : buf[x].k = "mark"}) <= recovered
+\* absent optional arguments do not swallow a language switch
+LangKept == (phase = "done" /\ \A k \in 1..Len(args) : args[k] = <<>>) => \A x \in 1..Len(orig) : orig[x].k = "lng" => InBuf(orig[x])
 Terminates == (phase = "run") ~> (phase = "done")
 Dump == phase = "done" => PrintT("@@" \o ToJson([toks |-> orig, codes |-> codes, args |-> args, delims |-> delims, rest |-> buf]))
 =============================================================================
